@@ -8,9 +8,6 @@ Import ListNotations.
 Open Scope N_scope.
 
 (* ------------------------------------------------------------------ sums over a universe *)
-Fixpoint sumf (f : N -> N) (U : list N) : N :=
-  match U with [] => 0 | a :: r => f a + sumf f r end.
-
 Lemma sumf_ext f g U : (forall a, In a U -> f a = g a) -> sumf f U = sumf g U.
 Proof.
   induction U as [|a r IH]; cbn [sumf]; intros H; [reflexivity|].
@@ -122,9 +119,8 @@ Section Conserve.
   Variable U : list N.
   Hypothesis HU : NoDup U.
 
-  Definition tot (c : cow) : N := sumf (fun a => bwp P lvl (lookup c a)) U.
-  (* balances are uint64; no account's rewards base is ahead of the current level *)
-  Definition wfc (c : cow) : Prop := forall a, a_algos (lookup c a) < 2 ^ 64 /\ a_rbase (lookup c a) <= lvl.
+  Definition tot (c : cow) : N := tot_at P lvl U c.
+  Definition wfc (c : cow) : Prop := wf_cow lvl c.
   Definition Inv (T : N) (c : cow) : Prop := wfc c /\ tot c = T.
   (* nothing pending: the stored balance is the balance with rewards *)
   Definition settled (c : cow) (a : N) : Prop := bwp P lvl (lookup c a) = a_algos (lookup c a).
@@ -543,16 +539,6 @@ Section Conserve.
 End Conserve.
 
 (* ------------------------------------------------------------------ block start *)
-Definition base_cow (b : base) : cow := mkCow layer0 [] b.
-
-Definition tot_at (P : params) (lvl : N) (U : list N) (c : cow) : N :=
-  sumf (fun a => bwp P lvl (lookup c a)) U.
-
-(* prevTotals.RewardUnits() over the enumerated ledger: units of Online + Offline accounts *)
-Definition part_units (P : params) (x : acct) : N :=
-  match a_status x with NotPart => 0 | _ => a_algos x / p_unit P end.
-Definition units_of (P : params) (U : list N) (c : cow) : N :=
-  sumf (fun a => part_units P (lookup c a)) U.
 
 (* raising the level adds (level increase) x (reward units) of pending rewards *)
 Lemma level_shift P U c prevlvl lvl :
